@@ -159,7 +159,7 @@ func (e *env) dbPath(c *caseCtx, choices []colChoice) {
 			return nil, fmt.Errorf("c13: Query returned %d rows for 1 staged row", res.Elem().Len())
 		}
 		return res.Elem().Index(0).Interface(), nil
-	})
+	}, nil)
 }
 
 func flipKey(v driver.Value) driver.Value {
@@ -181,29 +181,66 @@ func flipKey(v driver.Value) driver.Value {
 // column values, whether the decoded row matched.
 func (e *env) binlogPath(c *caseCtx, choices []colChoice) {
 	ti := c.ti
-	// The filter is taken from BuildStruct's decoding of the same binlog form
-	// (already compared with x above); skip if that did not decode.
-	direct := make([]driver.Value, len(c.vals))
+	raw := make([]driver.Value, len(c.vals))
 	for k := range c.vals {
-		direct[k] = encode(c.vals[k], choices[k], pBinlog)
+		raw[k] = encode(c.vals[k], choices[k], pBinlog)
 	}
-	var y interface{}
-	var derr error
-	if pn := safely(func() { y, derr = c.z.schema.BuildStruct(ti.name, direct) }); pn != nil || derr != nil {
-		c.run.Count("binlog_e2e_skipped_buildstruct_failed", 1)
+	build := func(row []driver.Value) (interface{}, bool) {
+		var y interface{}
+		var derr error
+		if pn := safely(func() { y, derr = c.z.schema.BuildStruct(ti.name, row) }); pn != nil || derr != nil {
+			return nil, false
+		}
+		return y, true
+	}
+	// The all-columns filter is taken from BuildStruct's decoding of the same
+	// binlog form (already compared with x by the caller).
+	fullFilter := func(y interface{}) sqlgen.Filter {
+		f := sqlgen.Filter{}
+		for _, s := range ti.specs {
+			f[s.name] = reflect.ValueOf(y).Elem().FieldByIndex(s.fieldIdx).Interface()
+		}
+		return f
+	}
+	keyFilter := sqlgen.Filter{ti.specs[0].name: c.x.Elem().FieldByIndex(ti.specs[0].fieldIdx).Interface()}
+
+	kind := (c.i / len(c.z.tables)) % 4
+	if y, ok := build(raw); ok {
+		e.pushAndObserve(c, choices, raw, kind, fullFilter(y), "")
 		return
 	}
-	filter := sqlgen.Filter{}
-	for _, s := range ti.specs {
-		filter[s.name] = reflect.ValueOf(y).Elem().FieldByIndex(s.fieldIdx).Interface()
+	// BuildStruct could not decode the binlog form (reported by the caller). Show
+	// the same through the real path, then keep the coverage of the other columns
+	// with the corrected row when the failure is the recognised defect.
+	alt, changed := c.altBinaryRow(raw)
+	var y2 interface{}
+	ok2 := false
+	if changed {
+		y2, ok2 = build(alt)
 	}
+	class := ""
+	if ok2 && ti.equal(c.x.Elem(), reflect.ValueOf(y2).Elem(), true) == "" {
+		class = "binary-tag-string-source"
+	}
+	e.pushAndObserve(c, choices, raw, kind, keyFilter, class)
+	if ok2 {
+		e.pushAndObserve(c, choices, alt, kind, fullFilter(y2), "")
+	}
+}
+
+// pushAndObserve registers a live dependency with the filter, pushes one rows
+// event built from row (binlog forms in struct column order) and waits until
+// the dependency is invalidated or the poll loop logs a decode failure.
+// errClass: classifier key to use if the poll loop fails to decode.
+func (e *env) pushAndObserve(c *caseCtx, choices []colChoice, row []driver.Value, kind int, filter sqlgen.Filter, errClass string) {
+	ti := c.ti
 	mkRow := func(flip bool) []interface{} {
 		brow := make([]interface{}, len(ti.layout))
 		for j := range brow {
 			brow[j] = int32(7) // the column the struct does not know
 		}
-		for k := range c.vals {
-			v := encode(c.vals[k], choices[k], pBinlog)
+		for k := range row {
+			v := row[k]
 			if flip && k == 0 {
 				v = flipKey(v)
 			}
@@ -213,7 +250,6 @@ func (e *env) binlogPath(c *caseCtx, choices []colChoice) {
 	}
 	var et replication.EventType
 	var rows [][]interface{}
-	kind := (c.i / len(c.z.tables)) % 4
 	switch kind {
 	case 0:
 		et, rows = replication.WRITE_ROWS_EVENTv2, [][]interface{}{mkRow(false)}
@@ -263,16 +299,14 @@ func (e *env) binlogPath(c *caseCtx, choices []colChoice) {
 	switch {
 	case atomic.LoadInt64(&e.log.n) > errsBefore:
 		msg := e.log.last()
-		c.violate(classifyBinlogError(c, msg), c.wit(map[string]interface{}{"what": "binlog path: the poll loop failed to decode a row in the form the binlog produces", "event": et.String(),
+		c.violate(errClass, c.wit(map[string]interface{}{"what": "binlog path: the poll loop failed to decode a row in the form the binlog produces", "event": et.String(),
 			"binlog_row": srcRow, "choices": fmt.Sprint(choices), "logged": vlib.Trunc(msg, 500)}))
 	case o == vlib.Reached:
 		c.run.Count("binlog_e2e_matched", 1)
 	case o == vlib.QuiescentNot:
 		c.violate("", c.wit(map[string]interface{}{"what": "binlog path: the decoded row did not match a dependency made of the row's own column values (no invalidation at quiescence)", "event": et.String(),
-			"binlog_row": srcRow, "choices": fmt.Sprint(choices)}))
+			"binlog_row": srcRow, "choices": fmt.Sprint(choices), "filter": showFilter(filter)}))
 	default:
 		c.run.Inconclusive(fmt.Sprintf("case %d: binlog path undecided", c.i))
 	}
 }
-
-func classifyBinlogError(c *caseCtx, msg string) string { return "" }
